@@ -88,6 +88,79 @@ theorem C08_get_set_same (pick pick' : Entries → Nat) (es : Entries) (k v : Go
   rw [C08_set]
   exact C08_get_after_set pick' es k v k (C07_refl k hk) (fun _ _ h => h)
 
+mutual
+/-- No NaN anywhere inside the value. -/
+def noNaN : GoVal → Bool
+  | .float f => !f.isNaN
+  | .complex re im => !re.isNaN && !im.isNaN
+  | .tuple xs => noNaNList xs
+  | .list xs => noNaNList xs
+  | .call _ _ args => noNaNList args
+  | .ref p => noNaN p
+  | _ => true
+def noNaNList : List GoVal → Bool
+  | [] => true
+  | x :: xs => noNaN x && noNaNList xs
+end
+
+mutual
+/-- Every hashable value without a NaN inside is in the domain of `C07_refl`: the kinds `equal`
+    never accepts are exactly kinds `hash` panics on. -/
+theorem reflOK_of_hashable : ∀ a : GoVal, (hashTree a).isSome = true → noNaN a = true → reflOK a = true
+  | .tuple xs, h, hn => by
+    simp only [hashTree, Option.isSome_map] at h
+    simp only [noNaN] at hn
+    simp only [reflOK]; exact reflOKList_of_hashable xs h hn
+  | .call m n args, h, hn => by
+    simp only [hashTree, Option.isSome_map] at h
+    simp only [noNaN] at hn
+    simp only [reflOK]; exact reflOKList_of_hashable args h hn
+  | .ref p, h, hn => by
+    simp only [hashTree, Option.isSome_map] at h
+    simp only [noNaN] at hn
+    simp only [reflOK]; exact reflOK_of_hashable p h hn
+  | .list _, h, _ => by simp [hashTree] at h
+  | .map _, h, _ => by simp [hashTree] at h
+  | .dict _, h, _ => by simp [hashTree] at h
+  | .nil, h, _ => by simp [hashTree] at h
+  | .cycle, h, _ => by simp [hashTree] at h
+  | .bytearray _, h, _ => by simp [hashTree] at h
+  | .href _, h, _ => by simp [hashTree] at h
+  | .float f, _, hn => by simpa [reflOK, noNaN] using hn
+  | .complex re im, _, hn => by simpa [reflOK, noNaN] using hn
+  | .mark, _, _ => by simp [reflOK]
+  | .none, _, _ => by simp [reflOK]
+  | .bool _, _, _ => by simp [reflOK]
+  | .int _, _, _ => by simp [reflOK]
+  | .uint _, _, _ => by simp [reflOK]
+  | .big _ _, _, _ => by simp [reflOK]
+  | .str _, _, _ => by simp [reflOK]
+  | .bytestr _, _, _ => by simp [reflOK]
+  | .bytes _, _, _ => by simp [reflOK]
+  | .cls _ _, _, _ => by simp [reflOK]
+  | .user _, _, _ => by simp [reflOK]
+theorem reflOKList_of_hashable : ∀ xs : List GoVal, (hashTreeList xs).isSome = true → noNaNList xs = true →
+    reflOKList xs = true
+  | [], _, _ => rfl
+  | x :: xs, h, hn => by
+    simp only [noNaNList, Bool.and_eq_true] at hn
+    have hx : (hashTree x).isSome = true ∧ (hashTreeList xs).isSome = true := by
+      simp only [hashTreeList] at h
+      cases h1 : hashTree x <;> cases h2 : hashTreeList xs <;> simp [h1, h2] at h ⊢
+    simp only [reflOKList, Bool.and_eq_true]
+    exact ⟨reflOK_of_hashable x hx.1 hn.1, reflOKList_of_hashable xs hx.2 hn.2⟩
+end
+
+/-- **C07 (reflexivity on keys).** Every key a Dict accepts (hashable) that holds no NaN equals itself. -/
+theorem C07_refl_hashable (a : GoVal) (h : hashable a = true) (hn : noNaN a = true) : goEqual a a = true :=
+  C07_refl a (reflOK_of_hashable a h hn)
+
+/-- **C08 (Set then Get, any accepted key).** For every key the Dict accepts that holds no NaN,
+    `Get k` right after `Set k v` returns `v`. -/
+theorem C08_get_set_hashable (pick pick' : Entries → Nat) (es : Entries) (k v : GoVal)
+    (h : hashable k = true) (hn : noNaN k = true) : tableGet pick' (dictSet pick es k v) k = some v :=
+  C08_get_set_same pick pick' es k v (reflOK_of_hashable k h hn)
+
 example : reflOK (.tuple [.int 1, .str [97], .float 0, .tuple [.none, .bool true]]) = true := by
   simp [reflOK, reflOKList, F64.isNaN]; decide
 
